@@ -113,7 +113,7 @@ func main() {
 	reports := flag.String("reports", "", "reports directory (one sub-directory per run is created)")
 	runs := flag.String("runs", "", "run specs, e.g. 'rs;rs,rc,rp;od;nr=0'")
 	settle := flag.Int("settle-ms", 300, "time to wait after the analysis returned before re-measuring")
-	watchdog := flag.Int("watchdog-s", 600, "wall-clock bound of one run (deadlock detection)")
+	watchdog := flag.Int("watchdog-s", 600, "wall-clock bound of the first run (deadlock detection); later runs: max(60 s, 10 x the slowest completed run)")
 	flag.Parse()
 	if *cfgPath == "" {
 		*cfgPath = filepath.Join(*dir, "config.yaml")
@@ -124,6 +124,7 @@ func main() {
 		os.Exit(2)
 	}
 	fmt.Println("LOADED")
+	var slowest time.Duration
 
 	for k, spec := range strings.Split(*runs, ";") {
 		p := func(format string, a ...interface{}) {
@@ -220,9 +221,20 @@ func main() {
 					IsEntrypoint: func(node ssa.Node) bool { return taint.IsSourceNode(state, spec, node) }})
 			}
 		}()
+		bound := time.Duration(*watchdog) * time.Second
+		if slowest > 0 {
+			bound = 10 * slowest
+			if bound < 60*time.Second {
+				bound = 60 * time.Second
+			}
+		}
+		began := time.Now()
 		select {
 		case <-done:
-		case <-time.After(time.Duration(*watchdog) * time.Second):
+			if d := time.Since(began); d > slowest {
+				slowest = d
+			}
+		case <-time.After(bound):
 			p("HANG %s goroutines=%d", phase.Load(), runtime.NumGoroutine())
 			buf := make([]byte, 1<<20)
 			n := runtime.Stack(buf, true)
